@@ -447,8 +447,14 @@ class DefaultParser(Parser):
     def __call__(self, input: str, /) -> Sentence:
         if isinstance(input, Sentence):
             return input
-        with ParseContext(input, self.table, self.predicates) as context:
-            return self._read(context)
+        try:
+            with ParseContext(input, self.table, self.predicates) as context:
+                return self._read(context)
+        except (ValueError, RecursionError) as err:
+            # e.g. a subscript longer than the int() digit limit, or nesting deeper
+            # than the interpreter stack: the input is rejected, not the parser broken.
+            raise ParseError(
+                f'{type(err).__name__} while parsing: {err}') from None
 
     _methodmap = MapProxy({
         Operator: '_read_operated',
